@@ -1,6 +1,6 @@
 #!/usr/bin/env python3
 """bin/seeded_meta.py: writes seeded/<id>/meta.json for the second and third wave of seeded changes
-(<Cxx>-2A/2B, <Cxx>-3A/3B) from seeded/wave2_meta.json, seeded/wave3_meta.json (what each change is and what it needs,
+(<Cxx>-2A/2B, <Cxx>-3A/3B, <Cxx>-4A/4B) from seeded/wave2_meta.json, seeded/wave3_meta.json (what each change is and what it needs,
 condensed from the sub-agents' READMEs) and from each directory's result.txt (bin/seeded_matrix)."""
 import json, os, sys
 
@@ -17,10 +17,20 @@ ALSO = {
     'C03-3A': 'C06 rc=1 merged-clock-differs-from-definition, C10 rc=1 valid-event-rejected, C20 rc=1 metric-differs-from-definition (the corrupted cached vector)',
     'C04-3B': 'C05 rc=1 forkless-cause-stale-after-reset (same one-line change as C05-B of the first wave)',
     'C11-3B': 'C12 rc=1 built-set-changes-when-a-builder-is-edited',
+    'C01-4B': 'C33 rc=1 root-registry-differs-from-model (whole registry of a real run with a lagging validator); C01 itself: the sub-agent\'s own random search found no order dependence in 2300 DAGs',
+    'C10-4B': 'same one-line change as C05-B / C04-3B: C05 rc=1 forkless-cause-stale-after-reset, C04 rc=1 build-frame-depends-on-earlier-builds',
+    'C14-4A': 'needs overlapping pushes: C28 rc=1 history-not-linearizable:ordering_buffer',
+    'C14-4B': 'needs Clear() overlapping a push inside a slow Process: C28 rc=1 history-not-linearizable:ordering_buffer',
+    'C29-4B': 'needs overlapping ContainsOrAdd calls (same change as C28-B): C28 rc=1 history-not-linearizable:wlru',
+    'C30-4B': 'same change as C28-4A: C28 rc=1 history-not-linearizable:semaphore (the over-release report is part of the release\'s outcome)',
+    'C33-4A': 'same change as C08-A: also C08 rc=1 restart-chain-diverges',
+    'C09-4A': 'also C33 rc=1', 'C09-4B': 'also C33 rc=1',
+    'C07-4A': 'also C04 rc=1 build-frame-depends-on-earlier-builds',
+    'C11-4A': 'also C12 rc=1 rlp-round-trip-changes-set',
 }
 
 n = 0
-for wave, src in (('2', 'wave2_meta.json'), ('3', 'wave3_meta.json')):
+for wave, src in (('2', 'wave2_meta.json'), ('3', 'wave3_meta.json'), ('4', 'wave4_meta.json')):
     M = json.load(open(os.path.join(ROOT, src)))
     for k, v in sorted(M.items()):
         d = os.path.join(ROOT, k)
@@ -29,11 +39,12 @@ for wave, src in (('2', 'wave2_meta.json'), ('3', 'wave3_meta.json')):
             continue
         res = open(os.path.join(d, 'result.txt')).read().strip() if os.path.exists(os.path.join(d, 'result.txt')) else ''
         dd = open(os.path.join(d, 'demo_dir.txt')).read().strip()
-        mroot = '/tmp/mut2' if wave == '2' else '/tmp/mut3'
+        mroot = '/tmp/mut' + wave
+        base = BASE if wave != '4' else '621f18e'
         meta = {
             'seeded_id': k, 'breaks_property': k.split('-')[0], 'wave': int(wave),
             'change': v['change'], 'needs_to_manifest': v['needs'],
-            'patch_applies_to': BASE,
+            'patch_applies_to': base,
             'demonstration': {'file': 'demo_test.go', 'copy_into': dd + '/', 'note': 'fails with patch.diff applied, passes on the clean tree'},
             'confirmed_by': 'MUTROOT=%s SUFFIX=%s bin/seed_verify %s %s: git apply on a clean scratch worktree; go build ./...; demo FAILS with the change; go test -vet=off -count=1 ./... PASSES with the change (demo removed); demo PASSES without the change' % (mroot, wave, k.split('-')[0], k[-1]),
             'origin': 'independent sub-agent given only the property text, the list of mechanisms already used, and its own scratch worktree',
